@@ -1,6 +1,6 @@
 //! C10.num: a numeral is read as ONE literal token.
 //!
-//! request : C10.num \t <hex of the numeral> \t d<hex of what follows it>
+//! request : C10.num \t <hex of the numeral> \t d<hex of what follows it> [ \t p<hex of what stands in front> ]
 //! observe : the token line of `C10.lex t1i0b0` on numeral ++ follower (so the lexer model answers it too)
 //! oracle  : a tokenisation reference that does not look at the lexer. `scan` reads the numeral with the C grammar of
 //!           numeric literals (the grammar rssl's literals are written in):
@@ -13,7 +13,7 @@
 //!           suffix). The scanner must consume the whole numeral, and decides from the spelling alone which ONE token the
 //!           numeral is: kind from the suffix, value = positional value of the digits (integers) or the double nearest
 //!           to digits x 10^exponent computed by the exact big-integer bisection, narrowed once for f / h. The real
-//!           lexer must return exactly that token with the span [0, |numeral|) — or, for an integer that does not fit
+//!           lexer must return exactly that token with the span of the numeral — or, for an integer that does not fit
 //!           the type its suffix names, the diagnostic IntegerLiteralTooLarge at its first digit and no token. A float
 //!           literal the lexer no longer recognises (read as integer + identifier, split at the exponent letter, ...)
 //!           fails here, whatever value oracle `C10.lex` applies to the tokens the lexer did return.
@@ -208,8 +208,14 @@ pub const DELIMS: &[&str] = &[
     ">", "=", "==", "&", "|", "^", "%", "!", "~", "(", "[", "{", "\"s\"", " x", ";1",
 ];
 
-pub fn run_num(numeral: &str, delim: &str, hist: &mut Hist) -> (String, String) {
-    let text = format!("{}{}", numeral, delim);
+/// what may stand in front of a numeral (it ends in a byte that cannot glue to the numeral)
+pub const PREFIXES: &[&str] = &[
+    " ", "-", "(", "x=", "a+", "\n", "\r\n", "\t", "/**/", "1,", "\"s\"", "#define X ", "return ", "[", "{", "?", ":", "<", ">",
+    "//c\n", "\\\n", "x = y*", "float4(0.5, ", "0x1F,", "1e5;", "aaaaaaaaaaaaaaaaaaaaaaaaaaaaaaaaaaaaaaaaaaaaaaaaaaaaaaaaaaaaaaaaaaaaa ",
+];
+
+pub fn run_num(numeral: &str, delim: &str, prefix: &str, hist: &mut Hist) -> (String, String) {
+    let text = format!("{}{}{}", prefix, numeral, delim);
     let fl = Flags { trail: true, inc: false, base: 0 };
     let (obs, base_oracle) = run_lex(&text, &fl, hist);
     let Some(n) = scan(numeral.as_bytes()) else {
@@ -224,18 +230,26 @@ pub fn run_num(numeral: &str, delim: &str, hist: &mut Hist) -> (String, String) 
         Num::Int { .. } => "num.checked.int",
         Num::Float { .. } => "num.checked.float",
     });
+    if let Some(c) = prefix.bytes().last() {
+        if c.is_ascii_alphanumeric() || c == b'_' || c == b'.' || c >= 0x80 {
+            return (obs, "SKIP:the text in front would glue to the numeral".into());
+        }
+        hist.add("num.checked.with_text_in_front");
+    }
     let want = expected(&n);
+    let at0 = prefix.len() as u32;
     let len = numeral.len() as u32;
     let lx = lex_real(&text, &fl);
-    let first = lx.toks.first().map(|(t, s, e)| format!("{} {} {}", show_token(t), s, e));
+    let idx = lx.toks.iter().position(|(_, s, _)| *s >= at0).unwrap_or(lx.toks.len());
+    let first = lx.toks.get(idx).map(|(t, s, e)| format!("{} {} {}", show_token(t), s, e));
     let verdict = match (&want, &lx.err) {
         (Expect::Token(w), _) => {
-            let wanted = format!("{} 0 {}", w, len);
+            let wanted = format!("{} {} {}", w, at0, at0 + len);
             match &first {
                 Some(f) if *f == wanted => Ok(()),
                 Some(_) => {
                     let shown: Vec<String> =
-                        lx.toks.iter().take(3).map(|(t, s, e)| format!("{} {} {}", show_token(t), s, e)).collect();
+                        lx.toks.iter().skip(idx).take(3).map(|(t, s, e)| format!("{} {} {}", show_token(t), s, e)).collect();
                     Err(format!("numeral {} is the one literal {} but was read as {}", numeral, wanted, shown.join(";")))
                 }
                 None => Err(format!(
@@ -250,11 +264,11 @@ pub fn run_num(numeral: &str, delim: &str, hist: &mut Hist) -> (String, String) 
                 )),
             }
         }
-        (Expect::TooLarge(at), Some(Ok((r, o)))) if lx.toks.is_empty() && r == "IntegerLiteralTooLarge" && o == at => Ok(()),
+        (Expect::TooLarge(at), Some(Ok((r, o)))) if idx == lx.toks.len() && r == "IntegerLiteralTooLarge" && *o == at0 + at => Ok(()),
         (Expect::TooLarge(at), _) => Err(format!(
             "numeral {} does not fit the type its suffix names (IntegerLiteralTooLarge at {} expected) but was read as {}",
             numeral,
-            at,
+            at0 + at,
             obs
         )),
     };
@@ -422,25 +436,34 @@ pub fn systematic() -> Vec<Num> {
     v
 }
 
-pub fn request(numeral: &str, delim: &str) -> String {
-    format!("C10.num\t{}\td{}", hex(numeral.as_bytes()), hex(delim.as_bytes()))
+pub fn request(numeral: &str, delim: &str, prefix: &str) -> String {
+    if prefix.is_empty() {
+        format!("C10.num\t{}\td{}", hex(numeral.as_bytes()), hex(delim.as_bytes()))
+    } else {
+        format!("C10.num\t{}\td{}\tp{}", hex(numeral.as_bytes()), hex(delim.as_bytes()), hex(prefix.as_bytes()))
+    }
 }
 
 /// the generated stream; returns the number of cases
 pub fn generate(args: &Args, rng: &mut Rng, out: &mut Out, hist: &mut Hist) -> u64 {
     let mut cases = 0u64;
-    let one = |n: &Num, delim: &str, out: &mut Out, hist: &mut Hist| {
+    let one = |n: &Num, delim: &str, prefix: &str, out: &mut Out, hist: &mut Hist| {
         let t = n.text();
         // the scanner must read back what the generator wrote (a harness bug otherwise)
         assert_eq!(scan(t.as_bytes()).as_ref(), Some(n), "C10.num scanner does not read back {:?}", t);
-        let (obs, orc) = run_num(&t, delim, hist);
-        out.case(&request(&t, delim), &obs, &orc);
+        let (obs, orc) = run_num(&t, delim, prefix, hist);
+        out.case(&request(&t, delim, prefix), &obs, &orc);
     };
     let sys = systematic();
     for (i, n) in sys.iter().enumerate() {
         let d = DELIMS[(i + args.seed as usize) % DELIMS.len()];
-        one(n, d, out, hist);
+        one(n, d, "", out, hist);
         cases += 1;
+        if (i + args.seed as usize) % 4 == 0 {
+            let p = PREFIXES[(i / 4 + args.seed as usize) % PREFIXES.len()];
+            one(n, d, p, out, hist);
+            cases += 1;
+        }
     }
     hist.add("num.systematic_done");
     let n_rand = if args.thorough() { 300_000 } else { 10_000 };
@@ -448,7 +471,8 @@ pub fn generate(args: &Args, rng: &mut Rng, out: &mut Out, hist: &mut Hist) -> u
     for _ in 0..n_rand {
         let n = gen_numeral(rng, hist);
         let d = *rng.pick(DELIMS);
-        one(&n, d, out, hist);
+        let p = if rng.chance(2, 5) { *rng.pick(PREFIXES) } else { "" };
+        one(&n, d, p, out, hist);
         cases += 1;
     }
     cases
